@@ -68,13 +68,13 @@ func codecCheck(c *chk.Ctx, enforce string) {
 		ec, _ := pipe.ParseExported(json.RawMessage(raw), fmt.Sprintf("j%dc", i))
 		cc.ex = eh
 		cc.pkgH, cc.pkgC = fmt.Sprintf("gen/j%dh", i), fmt.Sprintf("gen/j%dc", i)
-		cc.top = eh.Schema.Files[0].Services[0].Methods[0].In
-		cc.topC = ec.Schema.Files[0].Services[0].Methods[0].In
-		emH, err := w.Emit(set, eh.Schema, work.EmitOpts{Plugins: []string{"go-http"}})
+		cc.top = svcFile(eh.Schema).Services[0].Methods[0].In
+		cc.topC = svcFile(ec.Schema).Services[0].Methods[0].In
+		emH, err := w.Emit(set, eh.Schema, work.EmitOpts{Plugins: []string{"go-http"}, PerFile: true})
 		if err != nil {
 			c.Broken("%v", err)
 		}
-		emC, err := w.Emit(set, ec.Schema, work.EmitOpts{Plugins: []string{"go-client"}, NoGlue: true})
+		emC, err := w.Emit(set, ec.Schema, work.EmitOpts{Plugins: []string{"go-client"}, NoGlue: true, PerFile: true})
 		if err != nil {
 			c.Broken("%v", err)
 		}
